@@ -134,13 +134,20 @@ func VfC03_Memory() {
 	b.NewCmpXchg(p, x, ld, enum.AtomicOrderingMonotonic, enum.AtomicOrderingMonotonic)
 	b.NewAtomicRMW(enum.AtomicOpAdd, p, x, enum.AtomicOrderingSequentiallyConsistent)
 	h.n += 5
-	st := types.NewStruct(it, types.NewArray(2, types.I8))
+	st := types.NewStruct(it, types.NewArray(2, types.I8), types.NewStruct(types.I8, types.I64, types.NewStruct(types.Float, types.I16)))
 	sp := b.NewAlloca(st)
 	b.NewGetElementPtr(st, sp, constant.NewInt(types.I32, 0), one, one)
 	agg := b.NewLoad(st, sp)
 	b.NewExtractValue(agg, 1, 0)
 	b.NewInsertValue(agg, x, 0)
-	h.n += 5
+	// index paths whose indices differ from level to level
+	ev := b.NewExtractValue(agg, 2, 0)                                   // i8
+	b.NewAdd(ev, constant.NewInt(types.I8, 1))                           // the use prints the result type
+	ev2 := b.NewExtractValue(agg, 2, 2, 1)                               // i16
+	b.NewAdd(ev2, constant.NewInt(types.I16, 1))
+	b.NewInsertValue(agg, constant.NewInt(types.I64, 5), 2, 1)           // well-typed: i64 into field 2.1
+	b.NewInsertValue(agg, constant.NewInt(types.I16, 5), 2, 2, 1)
+	h.n += 11
 	e := b.NewExtractElement(v, one)
 	iv := b.NewInsertElement(v, e, one)
 	mask := constant.NewZeroInitializer(types.NewVector(4, types.I32))
